@@ -114,3 +114,7 @@ impl core::convert::From<Vec<u8>> for Bytes {
     #[verifier::external_body]
     fn from(b: Vec<u8>) -> (r: Bytes) ensures r@ == b@ { unimplemented!() }
 }
+impl core::ops::DerefMut for BytesMut {
+    #[verifier::external_body]
+    fn deref_mut(&mut self) -> (r: &mut [u8]) ensures r@ == old(self)@, final(r)@ == final(self)@, final(self).requested() == old(self).requested() { unimplemented!() }
+}
